@@ -67,7 +67,11 @@ def gen_examples(rng, nmax=8):
                           ['abc', 'de', '   ', 'fgh'], ['\t', 'xy', ' \u00a0 '], ['  ', 'a1'],
                           # a string and the same string with one trailing line feed ('$' matches before it, so the
                           # second is counted for the first's expression and its own expression has frequency 0)
-                          ['abc', 'abc\n'], ['10', '22', '10\n', '37'], ['x1', 'x1\n', 'y2'], ['a-b\n', 'a-b', 'c-d']])
+                          ['abc', 'abc\n'], ['10', '22', '10\n', '37'], ['x1', 'x1\n', 'y2'], ['a-b\n', 'a-b', 'c-d'],
+                          # spellings that Unicode normalisation would change (a letter plus a combining mark, the
+                          # Angstrom and ohm signs): the examples are the strings as given
+                          ['e\u0301', 'o\u0308'], ['cafe\u0301', 'nai\u0308ve'], ['\u212b'], ['5\u2126', '7\u2126'],
+                          ['x\u0301y', 'z\u0308w', 'abc']])
         fam = list(fam)
         if rng.random() < 0.5:
             fam.reverse()
